@@ -291,6 +291,9 @@ func (e *Engine) scanWrites(fn *ssa.Function, blocks []*ssa.BasicBlock, ws *Writ
 				for _, f := range m.Fields {
 					ws.fields[f] = true
 				}
+			case "deref":
+				ws.fields["Root"] = true
+				ws.fields["Children"] = true
 			}
 		}
 	}
